@@ -558,6 +558,10 @@ M('R21-bounds-skip-binaries', 'R21',
   [('lp.py', "        for i in range(nvar):\n            string += '{} <= x{} <= {}\\n'.format(lb[i], i+1, ub[i])",
     "        for i in range(nvar):\n            if self.vtype[i] == 'B':\n                continue\n            string += '{} <= x{} <= {}\\n'.format(lb[i], i+1, ub[i])")],
   'Bounds section')
+M('R21-row-coeff-filter', 'R21',
+  [('lp.py', "                    for coeff, index in zip(coeffs, indices)]",
+    "                    for coeff, index in zip(coeffs, indices)\n                    if abs(coeff) > 1e-10]")],
+  'row coefficients filtered')
 M('R24-reshape-forwards-memo', 'R24',
   [('lp.py', "            new_const = np.array([self.const]).reshape(shape)\n        return Affine(self.model, self.linear, new_const)", "            new_const = np.array([self.const]).reshape(shape)\n        return Affine(self.model, self.linear, new_const, self.sparray)")],
   'sparray forwarded')
